@@ -337,11 +337,18 @@ type verifC23spec struct {
 	optional                 bool
 }
 
+var verifC23unicode = []string{"Jos\u00e9", "\u20ac5", "\u65e5\u672c", "na\u00efve caf\u00e9 \u00df"}
+
 // verifC23content: m symbolic characters for a default value / description. Alphabet: blank,
 // tab, lower-case letters and every ASCII punctuation or control character except CR, LF and
 // the field's own terminator (upper-case letters, digits, `_` and `-` are left to
 // VerifC23Accept: each costs the engine a separate path per character and field).
 func verifC23content(name string, m int, terminator byte) string {
+	// non-ASCII text (the documentation allows any value "including Unicode"): concrete samples,
+	// the engine does not decode symbolic multi-byte characters
+	if u := rt.Choice(name+"-unicode", len(verifC23unicode)+1); u > 0 {
+		return verifC23unicode[u-1]
+	}
 	b := rt.Bytes(name, m)
 	for j := range b {
 		c := b[j]
